@@ -4,6 +4,7 @@ CONSTANTS
   PPs = {"all", "one-rest", "half", "seven", "ramp"}
   Lens = {0, 1, 125, 126, 65535, 65536}
   MaxCalls = 6
+  DModes = {""}
   FinishAnytime = FALSE
   BUG_StaleLen = FALSE
   BUG_LateMask = FALSE
